@@ -68,6 +68,12 @@ def register(R):
     R.contract("<opaque>", "Thread.join", serves=["C10"], params={"self": "opaque:Thread"}, trusted="waits for the refresh thread")
     R.contract("<opaque>", "Thread.start", serves=["C10"], params={"self": "opaque:Thread"}, trusted="starts the refresh thread")
     R.contract("<opaque>", "Widget.close", serves=["C10"], params={"self": "opaque:Widget"}, trusted="jupyter only")
+    # a redirected stream is a FileProxy: flushing it prints the pending partial line through the console and its render
+    # hooks, i.e. it runs the live renderable and may raise whatever that raises (FileProxy.flush -> Console.print)
+    R.contract("<opaque>", "IO.flush", serves=["C10"], params={"self": "opaque:IO"}, raises={"BaseException": "*"},
+               trusted="stream flush: may print through the render hooks (FileProxy) and so may raise anything; touches neither hooks, cursor flag, streams nor _started")
+    R.contract("<opaque>", "IO.write", serves=["C10"], params={"self": "opaque:IO", "text": "str"}, returns="int", raises={"BaseException": "*"},
+               trusted="stream write: as flush")
     R.opaque_classes[("rich.live", "_RefreshThread")] = "Thread"
     R.opaque_classes[("rich.progress", "_RefreshThread")] = "Thread"
     R.contract("rich.live", "Live._disable_redirect_io", serves=["C10"], inline=True)
